@@ -208,6 +208,28 @@ func values(thorough bool) []Val {
 	add("vt.Display", "vt.Display{L: 1, C: 404, F: 200, N: \"x\", R: 0.25, S: true, O: 420}")
 	add("vt.Display", "vt.Display{PL: ptr(vt.Level(2)), LS: []vt.Level{0, 1, 2}, M: map[vt.Level]vt.Octal{1: 420, 2: 8}}")
 	add("map[vt.Code]vt.Label", "map[vt.Code]vt.Label{404: \"nf\", -1: \"\"}")
+	// int32 / rune values around every boundary a rune printer may care about: all of U+0000..U+02FF, the
+	// surrogate range and its neighbours, U+FFF0..U+1000F, the end of Unicode, negative and extreme values
+	{
+		var vs []string
+		addRange := func(lo, hi int64) {
+			for v := lo; v <= hi; v++ {
+				vs = append(vs, strconv.FormatInt(v, 10))
+			}
+		}
+		addRange(0, 0x2FF)
+		addRange(0xD7F0, 0xE010)
+		addRange(0xFFF0, 0x1000F)
+		addRange(0x10FFF0, 0x110010)
+		addRange(-3, -1)
+		vs = append(vs, "2147483647", "-2147483648")
+		add("[]int32", "[]int32{"+strings.Join(vs, ", ")+"}")
+		add("[]rune", "[]rune{"+strings.Join(vs, ", ")+"}")
+		add("map[rune]string", "map[rune]string{0xD800: \"a\", 0xDFFF: \"b\", 0xFFFD: \"c\", 0x41: \"d\", -1: \"e\"}")
+		add("map[string]rune", "map[string]rune{\"hi\": 0xD800, \"lo\": 0xDC00, \"r\": 0xFFFD}")
+		add("*int32", "ptr(int32(0xD800))")
+		add("[3]rune", "[3]rune{0xDBFF, 0xDC00, 0x10FFFF}")
+	}
 	// deep nesting: zero-valued structs as slice elements / map values / pointees / array elements at every
 	// depth from 2 to 12 below the rendered root (wrapped alternately in slices, maps, arrays and a pointer)
 	{
@@ -789,7 +811,7 @@ func replay(c *core.Ctx, raw json.RawMessage) {
 func init() {
 	core.Register(&core.Prop{
 		ID: "C10", Level: "model_checking", Run: run, Replay: replay, Shards: 4,
-		Rule:        "value model: every listed boundary value of every scalar type (bool, all int/uint kinds incl. uintptr, runes, float32/64 edge values, strings with quotes/newlines/backquotes/non-UTF-8/NUL, and every string of <=2 (3) characters over 16 special characters: quote, backslash, backquote, LF, CR, TAB, NUL, DEL, invalid byte, BOM, U+2028, NBSP, apostrophe, non-ASCII, astral), named scalars of two foreign packages and of the target package, named scalars with String/Error/Format/GoString methods (display text differs from the literal), a one-level pointer to each of them (and nil pointers); for 9 element types: nil/empty/1/3-element slices, arrays, pointers, pointers to slices, maps under 6 key types (string, int, bool, named string, array, struct) incl. two insertion orders of the same map; structs with zero and non-zero members of every field kind (pointer to zero struct, zero struct as map value / slice element, embedded, anonymous, cross-package, and values mixing types that share package name and type name across two packages); depth-2 containers; a nesting chain that puts zero-valued structs as element / map value / pointee / array element at every depth from 2 to 12. Each is rendered by snippet.Value in a compiled program, type-checked as `var got T = <text>` in the target package and compared at run time with the original (nil == empty); same text when rendered twice and for both insertion orders; the whole list is rendered in 4 sessions (files) of one process - same target, same target again, another target, the first target again - and sessions for the same target must agree in texts and registered imports; built with the map-order seam the sessions run under ascending / descending / rotated iteration of every map (reflect.MapKeys included). Non-trivial = composite/pointer values; states = distinct type shapes",
+		Rule:        "value model: every listed boundary value of every scalar type (bool, all int/uint kinds incl. uintptr, runes, float32/64 edge values, strings with quotes/newlines/backquotes/non-UTF-8/NUL, and every string of <=2 (3) characters over 16 special characters: quote, backslash, backquote, LF, CR, TAB, NUL, DEL, invalid byte, BOM, U+2028, NBSP, apostrophe, non-ASCII, astral), named scalars of two foreign packages and of the target package, named scalars with String/Error/Format/GoString methods (display text differs from the literal), a one-level pointer to each of them (and nil pointers); for 9 element types: nil/empty/1/3-element slices, arrays, pointers, pointers to slices, maps under 6 key types (string, int, bool, named string, array, struct) incl. two insertion orders of the same map; structs with zero and non-zero members of every field kind (pointer to zero struct, zero struct as map value / slice element, embedded, anonymous, cross-package, and values mixing types that share package name and type name across two packages); depth-2 containers; int32/rune values around every Unicode boundary (surrogates, U+FFFD, end of Unicode); a nesting chain that puts zero-valued structs as element / map value / pointee / array element at every depth from 2 to 12. Each is rendered by snippet.Value in a compiled program, type-checked as `var got T = <text>` in the target package and compared at run time with the original (nil == empty); same text when rendered twice and for both insertion orders; the whole list is rendered in 4 sessions (files) of one process - same target, same target again, another target, the first target again - and sessions for the same target must agree in texts and registered imports; built with the map-order seam the sessions run under ascending / descending / rotated iteration of every map (reflect.MapKeys included). Non-trivial = composite/pointer values; states = distinct type shapes",
 		Assumptions: []string{"NaN/Inf, complex numbers, pointer map keys, func/chan/interface-typed members and unexported fields are outside the stated domain"},
 	})
 }
